@@ -38,6 +38,28 @@ def run(tier, seed, t0, H):
                     "correspondence_stats": cstats, "op_histogram": H.hist(ops), "result_histogram": H.hist(results), "oracle_stats": stats,
                     "correspondence_disagreements": len(corr), "oracle_failures": len(ofails),
                     "samples": [{"ops": c["ops"][:40], "impl": [x.partition(" | ")[0][:160] for x in c["impl"][:40]]} for c in cases if c["id"].startswith("know-")][-1:]}
+        # world part: commit RACES (which the knowledge engine's single committer never produces) in which a member is removed while
+        # siblings of the removing commit circulate; the evicted client is fed everything again at the end.  Judged here by the C03
+        # clauses of the world oracle alone (evicted-client-active-again, evicted-client-reads); the step-wise model tie of these
+        # histories is C01's business.
+        try:
+            from . import worldeng as W
+            worlds = W.load_corpus("C03w") + W.run_histories(seed + 29, 30 if tier == "quick" else 300, tier)
+            wf, evicted_seen = [], 0
+            for w in worlds:
+                if getattr(w, "crashed", None) or not hasattr(w, "meta"):
+                    continue
+                f, _ = W.oracle_world(w)
+                wf += [x for x in f if "C03" in x.get("props", [x.get("prop")])]
+                evicted_seen += sum(1 for c in range(w.n_clients) if (w.fps.get(c) or {}).get("state") == "i")
+            failures += wf
+            ob.add("oracle:world:evicted-stays-evicted", not wf, f"failures={len(wf)}")
+            coverage["world_evictions"] = {"evaluations": len(worlds), "distinct_nontrivial": len({tuple(c for c, _, _ in w.trace) for w in worlds if any((w.fps.get(c) or {}).get("state") == "i" for c in range(w.n_clients))}),
+                                           "rule": "race histories of the world engine (worldeng.gen_race_history); non-trivial = a history at whose end some client holds the group as Inactive (it processed its own removal); only the C03 clauses of the world oracle are judged",
+                                           "clients_evicted_at_the_end": evicted_seen, "oracle_failures": len(wf),
+                                           "samples": [[c for c, _, _ in w.trace][:40] for w in worlds[:1]]}
+        except RuntimeError as e:
+            ob.add("tie:world-engine-ran", False, str(e)[:400])
     else:
         coverage = {"evaluations": 1, "distinct_nontrivial": 0, "rule": rule, "samples": ["build failed"]}
     coverage["axioms_used"] = H.axiom_summary(axioms)
